@@ -369,6 +369,18 @@ pub(crate) fn stub_update_reader<'a>(h: &'a mut blake3::Hasher, mut reader: impl
     }
     Ok(h)
 }
+/// Length-only tap (writer harnesses that only need to know *how much* was hashed).
+pub(crate) fn stub_update_reader_len<'a>(h: &'a mut blake3::Hasher, mut reader: impl std::io::Read) -> std::io::Result<&'a mut blake3::Hasher> {
+    let mut buf = [0u8; 512];
+    loop {
+        match reader.read(&mut buf) {
+            Ok(0) => break,
+            Ok(n) => unsafe { H_LEN += n as u64 },
+            Err(e) => return Err(e),
+        }
+    }
+    Ok(h)
+}
 pub(crate) fn stub_finalize(_h: &blake3::Hasher) -> blake3::Hash {
     let mut out = [0u8; 32];
     unsafe {
